@@ -407,4 +407,50 @@ def onesRunsFrom (pos : Nat) (cur : Option Nat) : List Nat → List (Nat × Nat)
 
 def onesRuns (d : List Nat) : List (Nat × Nat) := onesRunsFrom 0 none d
 
+
+/-! ## The streamed path as a walk over the chromosome runs (`iter_chromosomes` zipped with the sizes) -/
+
+/-- hand out, for the chromosomes `k, k+1, …` (`m` of them), the next run if it is that chromosome's, else the empty table -/
+def assignRuns : Nat → Nat → List (Nat × List Iv) → List (List Iv)
+  | _, 0, _ => []
+  | k, m + 1, [] => [] :: assignRuns (k + 1) m []
+  | k, m + 1, g :: t => if g.1 = k then g.2 :: assignRuns (k + 1) m t else [] :: assignRuns (k + 1) m (g :: t)
+
+/-- streamed pile-up: group the (genome-ordered) entries into runs, walk the genome order, single-contig pile-up per table -/
+def pileupStreamRuns (sizes : List Nat) (ivs : List Iv) : List (List Nat) :=
+  ((assignRuns 0 sizes.length (runs ivs)).zip sizes).map (fun x => pile1 x.2 (x.1.map (fun iv => (iv.s, iv.e))))
+
+def maskStreamRuns (sizes : List Nat) (ivs : List Iv) : List (List Nat) :=
+  (pileupStreamRuns sizes ivs).map (fun d => d.map (fun n => if n = 0 then 0 else 1))
+
+/-! ## The grouping shipped between 5ae8cf0 and 57736e2 (`groupby` with its first-key = last-key fast path) -/
+
+def groupFast (l : List Iv) : List (Nat × List Iv) :=
+  match l, l.getLast? with
+  | x :: _, some y => if y.c = x.c then [(x.c, l)] else runs l
+  | _, _ => []
+
+def mergeGroupedOld (d : Nat) (ivs : List Iv) : Option (List Iv) :=
+  (omap (fun g => mergeChrom d g.1 g.2) (groupFast ivs)).map List.flatten
+
+/-! ## Sequence under intervals: reverse complement on the minus strand -/
+
+/-- complement of an upper-case base given as its ASCII code (`A↔T`, `C↔G`, others unchanged) -/
+def compBase (b : Nat) : Nat :=
+  if b = 65 then 84 else if b = 84 then 65 else if b = 67 then 71 else if b = 71 then 67 else b
+
+def revComp (l : List Nat) : List Nat := (l.map compBase).reverse
+
+/-- `GenomicSequence.extract_intervals`: the slice in concatenated coordinates, reverse-complemented on `-` when stranded -/
+def extractSeqRow (sizes : List Nat) (dense : List Nat) (stranded : Bool) (iv : Iv) : Option (List Nat) :=
+  match toGlobal sizes iv with
+  | none => none
+  | some g =>
+    let row := (dense.drop g.1).take (g.2 - g.1)
+    some (if stranded && !iv.fwd then revComp row else row)
+
+def specSeqRow (seqs : List (List Nat)) (stranded : Bool) (iv : Iv) : List Nat :=
+  let row := ((seqs.getD iv.c []).drop iv.s).take (iv.e - iv.s)
+  if stranded && !iv.fwd then revComp row else row
+
 end C10
